@@ -4,6 +4,7 @@ import PetgraphModel.Model.Csr
 import PetgraphModel.Model.Graph
 import PetgraphModel.Model.AdjList
 import PetgraphModel.Model.Matrix
+import PetgraphModel.Model.StableGraph
 import PetgraphModel.Extracted.AdjWidth
 /-
 C06 (wave 2) — the TABLE of `visit`-trait answers computed from a STORAGE MODEL.
@@ -390,6 +391,93 @@ def csrTable (s : CsrM.State) : Table :=
     edges := some (rowsOver qs fun a => ((CsrM.edgesOf s a).getD []).map eref)   -- `self.edges(a)`
     edgesOut := none                                             -- not `IntoEdgesDirected`
     edgesIn := none
+    adj := some (rowsOver qs fun a => qs.filter fun b => isAdjacent s m a b) }
+
+/-! ## `StableGraph` -/
+/-
+C06 (wave 3) — the TABLE of `visit`-trait answers of `StableGraph<N, E, Ty, Ix>` computed from the storage model
+`Model/StableGraph.lean` (the C02 model), field by field as `harness/src/c06.rs` (`table!`, runner `graph_like!`
+instantiated with `StableGraph`) fills it and as the trait impls of
+/repo/src/graph_impl/stable_graph/mod.rs:1858-2063 and /repo/src/traits_graph.rs:44-71 compute it:
+
+  query nodes  qs = `g.node_indices()`   (the live slots, ascending: vacancies are skipped)
+  query edges  qe = `g.edge_indices()`   (the live edge slots)
+  ids are raw indices, weights integers.
+
+`StableGraph` implements every trait of the table but NOT `NodeCompactIndexable` (`compact = false`): there may be
+vacant indices below `node_bound`.  `node_bound` / `edge_bound` are "last live index + 1"; the adjacency bitmap
+has `node_bound` columns (built and read with the same width, `Extracted/AdjWidth.lean`).  Core Lean only.
+-/
+
+namespace SGView
+open PetgraphModel.SG
+open PetgraphModel.Extracted
+
+/-- the items of an iterator run to exhaustion; a fault of the model (out-of-bounds access, a `next` walk that
+does not terminate, a failing `debug_assert!`) is unreachable under the C02 invariant
+(`stableTable_no_fault`, Proofs/C06W3Stable.lean) and is rendered as the empty row -/
+def okOr {α : Type} (r : Except Fault (List α)) : List α :=
+  match r with
+  | .ok l => l
+  | .error _ => []
+
+/-- `EdgeReference` as printed by the harness: `id().index()`, `source()`, `target()`, `weight()`
+(src/graph_impl/stable_graph/mod.rs:1983-2003) -/
+def eref (r : SG.ERef) : Visit.ERef := ⟨r.id, r.a, r.b, r.w⟩
+
+/-- `NodeIndexable::to_index`: `ix.index()` (stable_graph/mod.rs:1942) -/
+def toIndex (_ : State) (a : Nat) : Nat := a
+/-- `NodeIndexable::from_index` / `EdgeIndexable::from_index`: `NodeIndex::new(ix)` / `EdgeIndex::new(ix)`
+(stable_graph/mod.rs:1945, 2020): `ix as Ix` -/
+def fromIndex (s : State) (i : Nat) : Nat := mkIx s i
+
+/-- `IntoNeighbors::neighbors(a)` = `neighbors_directed(a, Outgoing)` (stable_graph/mod.rs:1950-1970);
+`k = dir.index()` -/
+def nbrsDir (s : State) (a k : Nat) : List Nat := okOr (neighborsDirected s a k)
+
+/-- `IntoEdges::edges(a)` = `edges_directed(a, Outgoing)`; `IntoEdgesDirected` (stable_graph/mod.rs:1972-2034) -/
+def edgesDir (s : State) (a : Nat) (dirIn : Bool) : List Visit.ERef := (okOr (edgesDirected s a dirIn)).map eref
+
+/-- `GetAdjacencyMatrix::adjacency_matrix` (src/traits_graph.rs:54-64): the positions `put` into the
+`FixedBitSet::with_capacity(n * n)`, `n = node_bound()`, in the order of `edge_references()`
+(`put` of a position `≥ n * n` would panic: unreachable, `sgAdjMatrix_in_range`) -/
+def adjMatrix (s : State) : List Nat :=
+  let n := nodeBound s
+  (edgeReferences s).flatMap fun e =>
+    AdjWidth.bitBuild_StableGraph n e.a e.b ::
+      (if !s.directed then [AdjWidth.bitBuildSym_StableGraph n e.a e.b] else [])
+
+/-- `GetAdjacencyMatrix::is_adjacent` (src/traits_graph.rs:66-70): `matrix.contains(n * a + b)`, `n = node_bound()`;
+`FixedBitSet::contains` answers `false` beyond the capacity `n * n` -/
+def isAdjacent (s : State) (m : List Nat) (a b : Nat) : Bool :=
+  let n := nodeBound s
+  decide (AdjWidth.bitRead_StableGraph n a b < n * n) && m.contains (AdjWidth.bitRead_StableGraph n a b)
+
+end SGView
+
+open SGView in
+def stableTable (s : SG.State) : Table :=
+  let qs := SG.nodeIndices s                                 -- `g.node_indices()`
+  let qe := SG.edgeIndices s                                 -- `g.edge_indices()`
+  let m := adjMatrix s                                       -- `g.adjacency_matrix()`
+  { directed := s.directed                                   -- `Ty::is_directed()`
+    ids := some (SG.nodeIndices s)                           -- `node_identifiers = node_indices` (:1905)
+    refs := some (SG.nodeReferences s)                       -- `NodeReferences`: vacant slots skipped (:1384)
+    nodeCount := some s.nodeCount                            -- `self.node_count` (:1915)
+    nodeBound := SG.nodeBound s                              -- last live index + 1 (:1939)
+    toIx := qs.map fun q => (q, toIndex s q)
+    fromIx := qs.map fun q => (q, fromIndex s (toIndex s q))
+    compact := false                                         -- no `NodeCompactIndexable` impl
+    erefs := some ((SG.edgeReferences s).map eref)           -- `EdgeReferences`: vacant slots skipped (:1582)
+    edgeCount := some s.edgeCount                            -- `self.edge_count` (:2060)
+    edgeBound := some (SG.edgeBound s)                       -- last live edge index + 1 (:2010)
+    eix := some (qe.map fun e => (e, e, fromIndex s e))      -- `to_index = index()`, `from_index = EdgeIndex::new`
+    nbrs := some (rowsOver qs fun a => nbrsDir s a 0)
+    nbrsOut := some (rowsOver qs fun a => nbrsDir s a 0)
+    nbrsIn := some (rowsOver qs fun a => nbrsDir s a 1)
+    edges := some (rowsOver qs fun a => edgesDir s a false)
+    edgesOut := some (rowsOver qs fun a => edgesDir s a false)
+    edgesIn := some (rowsOver qs fun a => edgesDir s a true)
     adj := some (rowsOver qs fun a => qs.filter fun b => isAdjacent s m a b) }
 
 end PetgraphModel.Visit
